@@ -11,7 +11,7 @@ import (
 var sweepCache = map[*Contract]*Contract{}
 
 func mentionsLock(text string) bool {
-	return strings.Contains(text, "held(") || strings.Contains(text, "rheld(") || strings.Contains(text, "sent(") || strings.Contains(text, "recvd(")
+	return strings.Contains(text, "held(") || strings.Contains(text, "rheld(")
 }
 
 // sweepContract keeps only the lock-related clauses of a contract.
@@ -140,4 +140,97 @@ func (w *World) runSweep(o *Options) []*FuncResult {
 		out = append(out, r)
 	}
 	return out
+}
+
+var viewCache = map[string]*Contract{}
+
+// clauseFor: a clause labelled [Cxx:...] or [Cxx,Cyy:...] belongs to those properties only.
+func clauseFor(cl *Clause, prop string) bool {
+	k := strings.Index(cl.Label, ":")
+	if k < 0 {
+		return true
+	}
+	head := cl.Label[:k]
+	isProps := true
+	for _, p := range strings.Split(head, ",") {
+		if len(p) < 3 || p[0] != 'C' {
+			isProps = false
+		}
+	}
+	if !isProps {
+		return true
+	}
+	for _, p := range strings.Split(head, ",") {
+		if p == prop {
+			return true
+		}
+	}
+	return false
+}
+
+// propView: the slice of a contract that takes part in the check of one property. A contract without props is a
+// library-level contract and takes part everywhere; a contract tagged with other properties only is invisible
+// (its function is then treated as un-contracted: inlined or summarised by its effects).
+func propView(ct *Contract, prop string) *Contract {
+	if ct == nil {
+		return nil
+	}
+	if len(ct.Props) == 0 {
+		return ct
+	}
+	if !ct.HasProp(prop) {
+		return nil
+	}
+	key := ct.PkgName + "." + ct.Key + "@" + prop + "@" + ct.Kind
+	if v, ok := viewCache[key]; ok {
+		return v
+	}
+	n := *ct
+	n.Requires, n.Ensures, n.Extra = nil, nil, nil
+	for _, r := range ct.Requires {
+		if clauseFor(r, prop) {
+			n.Requires = append(n.Requires, r)
+		}
+	}
+	for _, r := range ct.Ensures {
+		if clauseFor(r, prop) {
+			n.Ensures = append(n.Ensures, r)
+		}
+	}
+	n.Extra = ct.Extra
+	n.Loops = map[int]*LoopSpec{}
+	for k, l := range ct.Loops {
+		nl := *l
+		nl.Invs = nil
+		for _, inv := range l.Invs {
+			if clauseFor(inv, prop) {
+				nl.Invs = append(nl.Invs, inv)
+			}
+		}
+		n.Loops[k] = &nl
+	}
+	n.Ats = nil
+	for _, at := range ct.Ats {
+		na := &AtSpec{Where: at.Where}
+		for _, cl := range at.Clauses {
+			if clauseFor(cl, prop) {
+				na.Clauses = append(na.Clauses, cl)
+			}
+		}
+		if len(na.Clauses) > 0 {
+			n.Ats = append(n.Ats, na)
+		}
+	}
+	viewCache[key] = &n
+	return &n
+}
+
+// countedCall: "count <func key>" declarations.
+func (w *World) countedCall(fi *FuncInfo) bool {
+	for _, d := range w.Specs.Decls {
+		if d.Kind == "count" && d.PkgName == fi.Pkg.Name && strings.TrimSpace(d.Text) == fi.Short {
+			return true
+		}
+	}
+	return false
 }
